@@ -236,6 +236,61 @@ def run(tier, seed, replay=None):
                     V.failure({'what': 'a subdivide piece does not reproduce the original map', 'obj': O.spec_json(spec), 'op': 'subdivide', 'n': n, 'params': tp})
         if hits != 1:
             V.failure({'what': 'subdivide pieces do not tile the domain (parameter covered by %d pieces)' % hits, 'obj': O.spec_json(spec), 'op': 'subdivide', 'n': n, 'params': tp})
+    # ---------------------------------------------------------------- decimal (non-dyadic) parameters, implementation only
+    # every other block uses dyadic numbers so that the exact model sees what the doubles are; this one uses decimal
+    # domains and split points (not representable exactly), where only the statement itself can be asked: the
+    # pieces tile the period / domain and agree with the original to rounding
+    ndec = 0
+    if not replay:
+        for it in range(30 if tier == 'quick' else 400):
+            sp = O.gen_obj(rng, kinds=['periodic', 'periodic', 'open'], big_periodic=True, pardim=rng.choice([1, 1, 2]))
+            if any(b['periodic'] >= 0 and O.nfun(b) < b['order'] + b['periodic'] for b in sp['bases']):
+                continue
+            o = O.make_impl(sp)
+            dd = rng.randrange(o.pardim)
+            a_new = rng.choice([0.2, -1.3, 0.7, 3.1, -1.0])
+            width = rng.choice([2.0, 6.283185307179586, 0.9, 5.3])
+            try:
+                o.reparam((a_new, a_new + width), direction=dd)
+            except Exception:  # noqa
+                continue
+            per = o.periodic(dd)
+            npts = rng.choice([1, 2, 3])
+            fr_ = sorted(rng.sample([0.07, 0.13, 0.31, 0.35, 0.47, 0.59, 0.7, 0.83, 0.91], npts))
+            # what a user would type: a few decimals (0.4, -0.3, 1.389, ...)
+            pts = [round(o.start(dd) + f_ * width, 3) for f_ in fr_]
+            case = dict(op='split_decimal', direction=dd, obj=O.spec_json(O.snapshot(o)), points=pts)
+            try:
+                res = o.clone().split(pts if (npts > 1 or rng.random() < 0.5) else pts[0], dd)
+            except Exception as e:  # noqa
+                V.failure(dict(case, what='L2: split at decimal parameters raised %s' % type(e).__name__))
+                continue
+            ndec += 1
+            nontriv.add(C.case_hash(case))
+            plist = res if isinstance(res, (list, tuple)) else [res]
+            if per:
+                bounds = pts + [pts[0] + width]
+            else:
+                bounds = [o.start(dd)] + pts + [o.end(dd)]
+            if len(plist) != len(bounds) - 1:
+                V.failure(dict(case, what='L2: %d pieces for %d decimal split points (periodic: %s)' % (len(plist), npts, per)))
+                continue
+            for pc, lo, hi in zip(plist, bounds[:-1], bounds[1:]):
+                if pc.periodic(dd) or abs(pc.start(dd) - lo) > 1e-9 or abs(pc.end(dd) - hi) > 1e-9:
+                    V.failure(dict(case, what='L2: a piece has domain [%r, %r] (periodic: %s), expected [%r, %r]' % (pc.start(dd), pc.end(dd), pc.periodic(dd), lo, hi)))
+                    break
+                par = [o.start(e_) + (o.end(e_) - o.start(e_)) * 0.37 for e_ in range(o.pardim)]
+                bad = None
+                for f_ in (0.0, 0.21, 0.5, 0.77, 1.0):
+                    par[dd] = min(max(lo + (hi - lo) * f_, pc.start(dd)), pc.end(dd))
+                    vp = np.asarray(pc.evaluate(*par)).reshape(-1)
+                    vo = np.asarray(o.evaluate(*par)).reshape(-1)
+                    if vp.shape != vo.shape or not np.allclose(vp, vo, rtol=1e-8, atol=1e-8 * max(1.0, np.abs(vo).max())):
+                        bad = (list(par), vp.tolist(), vo.tolist())
+                        break
+                if bad:
+                    V.failure(dict(case, what='L2: a piece of a split at decimal parameters differs from the original', at=bad[0], piece=bad[1], original=bad[2]))
+                    break
     # ---------------------------------------------------------------- Curve.append of two independent curves
     # (different orders / rationality / knot vectors; the second is moved and its weights rescaled so that its first
     # homogeneous control point is the last one of the first curve, which is what append assumes)
@@ -325,7 +380,7 @@ def run(tier, seed, replay=None):
                 V.failure(dict(case, what='L2: the appended curve differs from the second curve (shifted) on its interval: ' + df[1]))
     rc = V.finish(l0, corr_bad if not V.fail else None)
     C.write_evidence(PID, tier, seed, l0, {
-        'evaluations': evals + nsub + napp, 'distinct_nontrivial': len(nontriv),
+        'evaluations': evals + nsub + napp + ndec, 'distinct_nontrivial': len(nontriv),
         'rule': 'random objects (pardim 1-3, open/non-open/periodic directions); split at 1-3 increasing points (knots of any multiplicity, between knots, '
                 'domain ends) given as scalar or list; pieces vs model, tiling, restriction at random parameters, curve split-then-append, subdivide; '
                 'non-trivial = distinct (object, direction, points)',
